@@ -204,6 +204,31 @@ func implRT(l hv.L) hv.Val {
 	return hv.L{hv.B(written), hv.I(rterr), hv.I(status), hv.B(rbody), hv.I(bodyerr)}
 }
 
+// wtReader hands the body over like bytes.Reader / bytes.Buffer do: through io.WriterTo, k bytes per Write
+// (k <= 0: everything in one Write)
+type wtReader struct {
+	b []byte
+	k int
+}
+
+func (r *wtReader) Read(p []byte) (int, error) { panic("wtReader: Read must not be used, WriteTo is") }
+func (r *wtReader) WriteTo(w io.Writer) (int64, error) {
+	var nn int64
+	for len(r.b) > 0 {
+		n := len(r.b)
+		if r.k > 0 && n > r.k {
+			n = r.k
+		}
+		m, err := w.Write(r.b[:n])
+		nn += int64(m)
+		r.b = r.b[m:]
+		if err != nil {
+			return nn, err
+		}
+	}
+	return nn, nil
+}
+
 func impl(in hv.Val) hv.Val {
 	l := hv.AsList(in)
 	if _, isList := l[0].(hv.L); !isList {
@@ -222,13 +247,14 @@ func impl(in hv.Val) hv.Val {
 	}
 	body := append([]byte(nil), hv.AsBytes(l[1])...)
 	bc := int(hv.AsInt(l[2]))
-	if bc < 1 {
-		bc = 1
+	var bodyReader io.Reader = &chunkReader{b: body, k: bc}
+	if bc <= 0 {
+		bodyReader = &wtReader{b: body, k: -bc}
 	}
 	resp := append([]byte(nil), hv.AsBytes(l[3])...)
 	mc := &mconn{resp: resp, rchunk: 1 + len(resp)/3}
 	cl := bfe_fcgi.VerifNewClient(mc)
-	r, err := cl.Do(pairs, &chunkReader{b: body, k: bc})
+	r, err := cl.Do(pairs, bodyReader)
 	if err != nil {
 		return hv.Err(1)
 	}
@@ -584,6 +610,22 @@ func gen(r *hv.Rng, i int, tier string) (string, hv.Val) {
 	bc := []int{1 << 20, 7, 1000, 65500, 4096}[r.Intn(5)]
 	if len(body) > 1000 && bc < 1000 {
 		bc = 1000
+	}
+	if r.Chance(1, 3) { // body through io.WriterTo: one Write, or pieces
+		bc = -[]int{0, 0, 0, 1, 13, 40000, 65499, 65500, 65501, 65535, 65536, 65537}[r.Intn(12)]
+		if len(body) > 2000 && bc > -1000 && bc != 0 {
+			bc = -40000
+		}
+		class += "-wt"
+	}
+	if r.Chance(1, 60) { // body sizes around every 16-bit / maxWrite constant, single Write or odd pieces
+		base := []int{65500, 65535, 65536, 65536, 131000, 131036, 131071, 131072}[r.Intn(8)]
+		body = r.Bytes(base + r.Range(-2, 2))
+		bc = -[]int{0, 0, 0, 0, 65536, 65535, 65501, 65500, 40000, 70000, 131072}[r.Intn(11)]
+		if r.Chance(1, 5) {
+			bc = []int{4096, 65500, 65536, 1 << 20}[r.Intn(4)]
+		}
+		class += "-bodyedge"
 	}
 	rc, resp := genResp(r)
 	return class + "/" + rc, hv.L{ps, hv.B(body), hv.I(bc), hv.B(resp)}
